@@ -42,6 +42,10 @@ func runSelectFunction(c *core.Ctx, selectPart bool) {
 			return isInit == initial
 		}
 	}
+	var selectBody *ast.BlockStmt
+	if f := e.Ix.LookupMethod(an.PkgTLA, "Value", "SelectElement"); f != nil {
+		selectBody = f.Body()
+	}
 	all := []dtRow{
 		// selection of the idx-th element (the with statement's choice)
 		{fn: "Value.SelectElement", key: "skips-exactly-idx-elements", why: "the elements before position idx are skipped, no more", find: func(info *types.Info, n ast.Node) bool {
@@ -57,8 +61,29 @@ func runSelectFunction(c *core.Ctx, selectPart bool) {
 			return true
 		}, ints: map[string]string{"i": "", "idx": ""}, bools: []string{"it.Done()"}, ref: func(a dtAtoms) bool { return a.I("i") < a.I("idx") && !a.B("it.Done()") }},
 		{fn: "Value.SelectElement", key: "returns-the-element-at-idx", why: "the element returned is the one at position idx; a position outside the set is refused", find: func(info *types.Info, n ast.Node) bool {
+			// a return of the variable that received the first component of an iterator's Next()
 			r, ok := n.(*ast.ReturnStmt)
-			return ok && len(r.Results) == 1 && an.ObjOf(info, r.Results[0]) != nil && an.ObjOf(info, r.Results[0]).Name() == "key"
+			if !ok || len(r.Results) != 1 {
+				return false
+			}
+			o := an.ObjOf(info, r.Results[0])
+			if o == nil || selectBody == nil {
+				return false
+			}
+			fromNext := false
+			ast.Inspect(selectBody, func(m ast.Node) bool {
+				as, isAs := m.(*ast.AssignStmt)
+				if !isAs || len(as.Lhs) != 3 || len(as.Rhs) != 1 || an.ObjOf(info, as.Lhs[0]) != o {
+					return true
+				}
+				if call, isCall := an.Unparen(as.Rhs[0]).(*ast.CallExpr); isCall {
+					if sel, isSel := an.Unparen(call.Fun).(*ast.SelectorExpr); isSel && sel.Sel.Name == "Next" {
+						fromNext = true
+					}
+				}
+				return true
+			})
+			return fromNext
 		}, ints: map[string]string{"i": "", "idx": ""}, bools: []string{"it.Done()"}, existsOthers: true, ref: func(a dtAtoms) bool { return !a.B("it.Done()") && a.I("i") == a.I("idx") }},
 		// function constructor
 		{fn: ".MakeFunction", key: "defines-at-full-depth", why: "one mapping per complete tuple of bound values", find: setCall,
